@@ -188,17 +188,6 @@ Section Chokes.
     reflexivity.
   Qed.
 
-  Lemma type_map_write_perm : forall items items',
-    Permutation items items' -> NoDup (map fst items) ->
-    type_map_write V write_str write_int write_value tag_dict items =
-    type_map_write V write_str write_int write_value tag_dict items'.
-  Proof.
-    intros items items' P ND. unfold type_map_write.
-    rewrite (Permutation_length P).
-    rewrite (isort_perm_invariant _ _ fst lex_leb lex_leb_total lex_leb_trans lex_leb_antisym _ _ P ND).
-    reflexivity.
-  Qed.
-
   Lemma str_set_write_perm : forall enum enum',
     Permutation enum enum' -> NoDup enum ->
     str_set_write write_str write_int enum = str_set_write write_str write_int enum'.
@@ -251,11 +240,20 @@ Proof.
   rewrite (isort_perm_invariant _ _ snd neg_leb neg_leb_total neg_leb_trans neg_leb_antisym _ _ P ND); auto.
 Qed.
 
-(* deps_to_json does NOT sort: two enumerations of the same two-element set give different bytes *)
-Lemma deps_targets_write_refuted :
+(* deps_to_json: invariant when it sorts ... *)
+Lemma deps_targets_write_sorted_perm : forall write_str write_int (enum enum' : list name),
+  Permutation enum enum' -> NoDup enum ->
+  deps_targets_write write_str write_int true enum = deps_targets_write write_str write_int true enum'.
+Proof.
+  intros ws wi e e' P ND. unfold deps_targets_write, sorted_names.
+  rewrite (Permutation_length P). rewrite (names_perm_invariant _ _ P); auto. rewrite map_id; auto.
+Qed.
+
+(* ... and not when it writes list(<set>) (the code before fix 6f793e2): two enumerations of a two-element set *)
+Lemma deps_targets_write_unsorted_refuted :
   exists (enum enum' : list name), Permutation enum enum' /\ NoDup enum /\
-    deps_targets_write (fun s => s) (fun n => [N.of_nat n]) enum <>
-    deps_targets_write (fun s => s) (fun n => [N.of_nat n]) enum'.
+    deps_targets_write (fun s => s) (fun n => [N.of_nat n]) false enum <>
+    deps_targets_write (fun s => s) (fun n => [N.of_nat n]) false enum'.
 Proof.
   exists [[97%N]; [98%N]], [[98%N]; [97%N]]. split; [apply perm_swap|]. split.
   - repeat constructor; simpl; intuition congruence.
